@@ -18,6 +18,26 @@ TARGET = os.path.join(BUILD, "target")
 HARNESS = os.path.join(VERIF, "harness")
 CVH = os.path.join(TARGET, "debug", "cvh")
 REPO = "/repo"
+# Development aid (bin/try-seed only): check a scratch worktree carrying a seeded change instead of /repo, without
+# touching /repo, the regular build output or the committed evidence.  Registered commands never set this.
+ALT_REPO = os.environ.get("VERIF_ALT_REPO")
+EVIDENCE_DIR = os.path.join(VERIF, "evidence")
+if ALT_REPO:
+    REPO = ALT_REPO
+    TARGET = os.path.join(BUILD, "target-alt")
+    CVH = os.path.join(TARGET, "debug", "cvh")
+    _alt = os.path.join(BUILD, "alt-harness")
+    os.makedirs(_alt, exist_ok=True)
+    with open(os.path.join(HARNESS, "Cargo.toml")) as _f:
+        _toml = _f.read().replace('path = "/repo"', 'path = "%s"' % ALT_REPO)
+    with open(os.path.join(_alt, "Cargo.toml"), "w") as _f:
+        _f.write(_toml)
+    import shutil as _sh
+    _sh.copyfile(os.path.join(HARNESS, "Cargo.lock"), os.path.join(_alt, "Cargo.lock"))
+    if not os.path.islink(os.path.join(_alt, "src")):
+        os.symlink(os.path.join(HARNESS, "src"), os.path.join(_alt, "src"))
+    HARNESS = _alt
+    EVIDENCE_DIR = os.path.join(BUILD, "alt-evidence")
 KNOWN_FILE = os.path.join(VERIF, "known_findings.txt")
 
 ALLOWED_AXIOMS = set()   # target: every theorem closed under the global context
@@ -395,8 +415,8 @@ class Ctx:
         }
         if not ev["coverage"]["samples"]:
             ev["coverage"]["samples"] = ["(no case ran)"]
-        os.makedirs(os.path.join(VERIF, "evidence"), exist_ok=True)
-        with open(os.path.join(VERIF, "evidence", self.prop + ".json"), "w") as f:
+        os.makedirs(EVIDENCE_DIR, exist_ok=True)
+        with open(os.path.join(EVIDENCE_DIR, self.prop + ".json"), "w") as f:
             json.dump(ev, f, indent=1, default=str)
         if self.scratch:
             subprocess.run(["chmod", "-R", "u+rwx", self.scratch], capture_output=True)
